@@ -23,10 +23,10 @@ LEVEL_TEXT = ('every request sequence up to the length bound over every (plate, 
 LEVEL_NOTE = ('trees are small (<= 4 fibres, <= 9 pixels, <= 3 plate-MJD files per tree); align=True, znum and spZall are outside the bound; '
               'FITS files are written by astropy, which is trusted; number_of_fibers is only held to the plate list for BOSS-era MJDs')
 RULE = ('readspec: all sequences of length 1..L (L=3 quick, 4 thorough) over all (plate, MJD, fibre) triples of tree a (3 files, 2 MJDs of one plate, '
-        '6/6/8 pixels), tree b (3 plates, 5/9/7 pixels, different COEFF0/COEFF1) and tree c (one file) in the vector convention; all sequences up to '
+        '6/6/8 pixels), tree b (3 plates, 5/9/7 pixels, different COEFF0/COEFF1), tree c (one file) and tree f (4 plates: equal COEFF0/COEFF1 with 5/8 and 8/6 pixels, equal 8 pixels with different COEFF0) in the vector convention; all sequences up to '
         'length 2 (3 thorough) in every other calling convention that can express them (lists, int64, scalar plate, scalar fibre, all scalar, numpy '
         'scalars, MJD omitted, fibre omitted) and location convention (path=, path+run kwargs, env tree, env+kwargs, topdir kwarg with a decoy env tree, '
-        'numeric RUN2D, photoPlate in SPECTRO_MATCH, optional env unset) on trees a, b, c, e (five-digit plate) and dz/dp (optional files missing for one plate). '
+        'numeric RUN2D, photoPlate in SPECTRO_MATCH, optional env unset) on trees a, b, c, f, e (five-digit plate) and dz/dp (optional files missing for one plate). '
         'Non-trivial = more than one distinct file requested, or request order differs from the file-grouped order, or a repeated triple. '
         'spec_append: all shapes (1..2 x 1..4)^2 x pixshift -3..3 x 3 dtypes; non-trivial = shapes differ or shift != 0. '
         'Helpers spec_path/latest_mjd/number_of_fibers: all plate vectors up to length 3 x 3 argument forms x 4 location conventions. '
@@ -54,6 +54,10 @@ TREES = {
     # a plate number with five digits (SDSS-IV), two MJDs
     'e': {'tid': 3, 'files': [(10001, 57000, 2, 5, 3.5529, 1.0e-4), (10001, 57100, 2, 6, 3.5530, 1.0e-4), (987, 55100, 2, 5, 3.5531, 1.0e-4)],
           'photo': 'none', 'z': 'all'},
+    # wavelength-solution reuse: 500/501 share COEFF0/COEFF1 but not NAXIS1 (later one longer), 501/502 share NAXIS1 but not COEFF0,
+    # 502/503 share COEFF0/COEFF1 but not NAXIS1 (later one shorter); all adjacent in sorted (plate, MJD) order
+    'f': {'tid': 2, 'files': [(500, 52000, 2, 5, 3.5800, 1.0e-4), (501, 52001, 2, 8, 3.5800, 1.0e-4), (502, 52002, 2, 8, 3.5900, 1.0e-4),
+                              (503, 52003, 2, 6, 3.5900, 1.0e-4)], 'photo': 'none', 'z': 'all'},
     # partial trees: one plate lacks the optional files
     'dz': {'tid': 2, 'files': [(3586, 55181, 2, 5, 3.5529, 1.0e-4), (4055, 55359, 2, 5, 3.5530, 1.0e-4)], 'photo': 'none', 'z': [0]},
     'dp': {'tid': 3, 'files': [(3586, 55181, 2, 5, 3.5529, 1.0e-4), (4055, 55359, 2, 5, 3.5530, 1.0e-4)], 'photo': [1], 'z': 'all'},
@@ -514,7 +518,7 @@ def check_sa(case):
 LOCS_FOR = {'a': ['path', 'pathkw', 'env', 'envkw', 'topdir', 'sdss1', 'match'],
             'b': ['path', 'env', 'topdir', 'noenv'],
             'c': ['path', 'env', 'match'],
-            'dz': ['path'], 'dp': ['path'], 'e': ['path', 'env']}
+            'dz': ['path'], 'dp': ['path'], 'e': ['path', 'env'], 'f': ['path', 'env']}
 
 
 def tasks(tier):
@@ -537,11 +541,12 @@ def tasks(tier):
     split('a', 'path', ['vec'], L, 2 if T else 1)
     split('b', 'path', ['vec'], L, 2 if T else 1)
     split('c', 'path', ['vec'], L, 1 if T else 0)
+    split('f', 'path', ['vec'], L, 2 if T else 1)
     # other conventions and locations: all sequences up to length 2 (3 thorough)
     ml = 3 if T else 2
     # trees 'dz'/'dp' (spZbest / photoPlate present for only some of the requested plates) are not run: the property says
     # nothing about partly missing optional files; readspec raises IndexError there (never mis-assigns) - see findings/C16.md
-    for tree in ('a', 'b', 'c', 'e'):
+    for tree in ('a', 'b', 'c', 'e', 'f'):
         for loc in LOCS_FOR[tree]:
             convs = other if loc == 'path' else ['vec', 'splate', 'nomjd', 'scalar', 'allfibers']
             split(tree, loc, convs, ml, 1 if (T and tree in ('a', 'b')) else 0)
